@@ -15,7 +15,9 @@ ENGINE = "c01"
 REQUIRED_THEOREMS = ['table_is_documented', 'shunt_complete', 'grammar_parses', 'collapse_keeps_other_chars', 'collapse_split', 'collapse_run', 'collapse_single', 'intercept_plain', 'no_intercept_plain', 'denote_mul', 'denote_mul_ops', 'denote_in_eq_div', 'denote_caret_eq_pow', 'denote_div_single', 'denote_pow_two', 'degree_order',
                      'shunt_preserves_tokens', 'shunt_preserves_tokens_default', 'shunt_preserves_tokens_constraint', 'shunt_preserves_leaves',
                      'intercept_every_part', 'intercept_every_rhs_part', 'no_intercept_on_lhs', 'intercept_onesided_general',
-                     'intercept_twosided_general', 'no_intercept_configured', 'zero_rewrites']
+                     'intercept_twosided_general', 'no_intercept_configured', 'zero_rewrites',
+                     'toplevel_parses', 'twosided_parses', 'multipart_parses', 'onesided_tilde_parses', 'toplevel_rejects',
+                     'eval_toplevel', 'eval_onesided', 'eval_toplevel_total']
 TRUSTED = [
     "modelled, not verified: CPython's ast.parse/ast.unparse normal form of Python fragments and Python's re classes \\w, \\s (both enter the model as per-case data computed with the live regexes / sanitize_python_code)",
     "the operator table is regenerated from the live DefaultOperatorResolver on every run (Gen/OperatorTable.lean)",
@@ -238,7 +240,7 @@ def classify(c, o, why):
 
 
 LEVEL_TEXT = (
-    "Proof (partial): Lean theorems about the executable model of the whole parser (tokenizer, token rewriting, sign-run collapsing, index-based shunting-yard, term algebra, _simplify, degree ordering) show for ALL inputs that the live operator table equals the documented one for all 8 flag subsets (re-decided against the regenerated table on every run), that the shunting-yard returns the documented tree for EVERY expression of the documented arithmetic grammar defined by precedence levels (Sum/Prod/Inter/Pow/Atom; unbounded nesting and chain lengths, leading unary sign, right-associative **), that conversely an ACCEPTED token list is never re-ordered, dropped from or duplicated (shunt_preserves_tokens: the in-order reading of the returned tree is the input token list without its brackets, for every operator table without a nullary infix operator, in particular the 8 live tables and the constraint table; shunt_preserves_leaves), that the token-level intercept insertion puts '1 +' in front of every right-hand part and of no left-hand part for formulas with ~ and | separators (and nothing with include_intercept off; a literal 0 becomes the two tokens - 1), that sign-run collapsing keeps all other operator characters and reduces runs by parity, the documented identities (a*b, %in%, ^, a/b, **2) and the stable degree ordering. The full 'parse = documented denotation' theorem (evaluation of the structural operators ~ and | and of '.') is NOT proved: it is kept as FULL (unproved) in Props/C01.lean and covered by the differential correspondence of the model against the real parser plus an independent reference evaluator of the documented semantics on generated ASTs."
+    "Proof (partial): Lean theorems about the executable model of the whole parser (tokenizer, token rewriting, sign-run collapsing, index-based shunting-yard, term algebra, _simplify, degree ordering) show for ALL inputs that the live operator table equals the documented one for all 8 flag subsets (re-decided against the regenerated table on every run), that the shunting-yard returns the documented tree for EVERY expression of the documented arithmetic grammar defined by precedence levels (Sum/Prod/Inter/Pow/Atom; unbounded nesting and chain lengths, leading unary sign, right-associative **), that conversely an ACCEPTED token list is never re-ordered, dropped from or duplicated (shunt_preserves_tokens: the in-order reading of the returned tree is the input token list without its brackets, for every operator table without a nullary infix operator, in particular the 8 live tables and the constraint table; shunt_preserves_leaves), that the token-level intercept insertion puts '1 +' in front of every right-hand part and of no left-hand part for formulas with ~ and | separators (and nothing with include_intercept off; a literal 0 becomes the two tokens - 1), that sign-run collapsing keeps all other operator characters and reduces runs by parity, the documented identities (a*b, %in%, ^, a/b, **2) and the stable degree ordering. The top level is proved too: for arbitrary Sums l.., p.. the tokens of 'l | .. ~ p | ..' parse to the documented tree ~(parts(l..), parts(p..)) under the flags that enable it (| chains nest to the right; the flat tuple is the same), are REJECTED with the syntax error when TWOSIDED or MULTIPART is off or a second ~ follows, and the tree evaluates to {lhs: parts, rhs: parts} with each part the term set of its Sum (toplevel_parses, toplevel_rejects, eval_toplevel, eval_toplevel_total). What is NOT proved is the composition into one statement from the STRING (tokenisation of an arbitrary rendered formula) and the '.' wildcard: it is kept as FULL (unproved) in Props/C01.lean and covered by the differential correspondence of the model against the real parser plus an independent reference evaluator of the documented semantics on generated ASTs."
 )
 LEVEL_NOTE = (
     'Trusted: Lean kernel + propext/Classical.choice/Quot.sound; the hand model of the parser validated on every run by correspondence (get_terms and Formula()) on grammar-directed and mutated strings; CPython ast.unparse normal forms and re character classes enter as data; the operator table is regenerated from the live resolver.'
